@@ -72,4 +72,16 @@ CHECKS['C17'] = {'engine': 'EX', 'design_ref': 'DESIGN.md 6 C17',
     'technique': 'bounded exhaustive enumeration of EVERY K-subset (K<=3) of the NFFT grid x amplitudes x N x every P x {music, ev}; reference forward-backward SVD; full product of argument-validation cases',
     'text': 'Every subset of on-grid frequencies with every subspace order: peak neighbourhoods dominate, positivity, singular values equal those of the reference data matrix, exactly K non-negligible; invalid argument combinations raise.',
     'note': _EX_NOTE}
+CHECKS['C18'] = {'engine': 'EX', 'design_ref': 'DESIGN.md 6 C18',
+    'technique': 'bounded exhaustive enumeration of EVERY N in 8..512 (+ ladder to 4096) x 19 NW values x every k, C routine recompiled from source, against the sinc concentration kernel and an independent tridiagonal eigen-solver',
+    'text': 'Every (N, NW, k) of the bound: orthonormality, ordering, concentration ratios against the explicit sinc kernel, eigenvector residuals, agreement with LAPACK tridiagonal eigenvectors, parity and sign conventions.',
+    'note': _EX_NOTE + '; gcc must be available to rebuild src/cpp/mydpss.c'}
+CHECKS['C19'] = {'engine': 'EX', 'design_ref': 'DESIGN.md 6 C19',
+    'technique': 'bounded exhaustive enumeration of families x N x NW x every k x NFFT parities x 3 methods x internal/precomputed tapers against explicit-sum DFTs, closed-form weights and a reference Thomson iteration',
+    'text': 'Every configuration of the product: eigenspectra equal explicit DFTs of taper*data, weights equal their closed forms or the reference adaptive iteration (inverted through Thomson formula), class PSD equals the weighted mean, precomputed tapers give the identical triple.',
+    'note': _EX_NOTE + '; tapers are taken from dpss of the same tree (C18)'}
+CHECKS['C20'] = {'engine': 'EX', 'design_ref': 'DESIGN.md 6 C20',
+    'technique': 'bounded exhaustive enumeration of all 29 names x EVERY N in 1..512 (+ ladder to 16384) x complete parameter grids x all keyword/alias combinations against scalar-math closed forms',
+    'text': 'Every window name, every length, every documented parameter value: well-formedness clauses, closed-form definitions in scalar math, factory forwarding, rejection of undocumented keywords, aliases, Window object.',
+    'note': _EX_NOTE}
 NOT_BUILT = {}
